@@ -309,6 +309,11 @@ func parseGroupName(prefix string, p string) string {
 		return ""
 	}
 
+	// group names never contain a backslash, see validGroupName
+	if strings.ContainsRune(name, '\\') {
+		return ""
+	}
+
 	if filepath.Separator != '/' &&
 		strings.ContainsRune(name, filepath.Separator) {
 		return ""
